@@ -1,12 +1,74 @@
-(* C06 — property theorems only. *)
+(* C06 — property theorems only.  `to_string true` is the repaired printer (fixes/C06-not-not-parens.patch),
+   `to_string false` the printer of the pinned tree; the parser, validator and evaluator are the same for both.
+   roundtrip_ok / same_uid / validate_agrees / canonical_idempotent are defined in Spec.v. *)
 From Coq Require Import List NArith Bool.
 From Verif.Common Require Import Labels.
-From Verif.C06 Require Import Model Spec Proofs.
+From Verif.C06 Require Import Model Spec TokProofs ParseProofs ImageProofs ValidateProofs Proofs.
 Import ListNotations.
 Open Scope N_scope.
 
-(* FINDING: with the printer of the pinned tree the round trip fails (double negation through parentheses). *)
+(* For EVERY byte string the parser accepts, the canonical text parses back to a selector with the same
+   canonical text that evaluates identically on ALL label maps (repaired printer). *)
+Theorem c06_print_parse : forall s, roundtrip_ok parse (to_string true) s.
+Proof. exact print_parse_fixed. Qed.
+Print Assumptions c06_print_parse.
+
+(* Stronger form used by the above: the re-parsed AST is the identical AST. *)
+Theorem c06_print_parse_same_ast : forall s a, parse s = Ok a -> parse (to_string true a) = Ok a.
+Proof. exact roundtrip_fixed. Qed.
+Print Assumptions c06_print_parse_same_ast.
+
+(* FINDING: with the printer of the pinned tree the round trip fails (double negation through parentheses) ... *)
 Theorem c06_print_parse_refuted :
   exists s a a', parse s = Ok a /\ parse (to_string false a) = Ok a' /\ to_string false a' <> to_string false a.
 Proof. exact print_parse_refuted_pinned. Qed.
 Print Assumptions c06_print_parse_refuted.
+
+(* ... and it holds for the pinned printer on every parsed selector without a negation directly under a negation.
+   PARTIAL: nothing is proved here about pinned-printer selectors containing !(!x) beyond the refutation above. *)
+Theorem c06_print_parse_pinned_partial : forall s a, parse s = Ok a -> nn_free a = true ->
+  exists a', parse (to_string false a) = Ok a' /\ to_string false a' = to_string false a
+             /\ (forall L : labels, eval a' L = eval a L).
+Proof. exact print_parse_pinned_partial. Qed.
+Print Assumptions c06_print_parse_pinned_partial.
+
+(* Same identity hash, whatever the hash function is. *)
+Theorem c06_same_uid : forall (H : bytes -> bytes) s, same_uid parse (to_string true) (uid H true) s.
+Proof. exact same_uid_fixed. Qed.
+Print Assumptions c06_same_uid.
+
+Theorem c06_same_uid_pinned_partial : forall (H : bytes -> bytes) s a a', parse s = Ok a -> nn_free a = true ->
+  parse (to_string false a) = Ok a' -> uid H false a' = uid H false a.
+Proof. exact same_uid_pinned_partial. Qed.
+Print Assumptions c06_same_uid_pinned_partial.
+
+(* The validation entry point accepts exactly the expressions the parser accepts (all byte strings). *)
+Theorem c06_validate_iff_parse : forall s, validate_agrees parse validate s.
+Proof. exact validate_iff_parse. Qed.
+Print Assumptions c06_validate_iff_parse.
+
+(* Canonical form is a fixed point of canonicalisation (repaired printer); refuted for the pinned one. *)
+Theorem c06_canonical_idempotent : forall s, canonical_idempotent (canon true) s.
+Proof. exact canon_idempotent_fixed. Qed.
+Print Assumptions c06_canonical_idempotent.
+
+Theorem c06_canonical_idempotent_refuted : exists s t, canon false s = Ok t /\ canon false t <> Ok t.
+Proof. exact idempotent_refuted_pinned. Qed.
+Print Assumptions c06_canonical_idempotent_refuted.
+
+(* Tokenizer/parser invariant behind all of the above: what parse returns is well-formed
+   (labels are 1..512 identifier bytes, no value contains both quote characters, sets strictly sorted,
+   and/or nodes have >= 2 operands). *)
+Theorem c06_parse_image_wf : forall s a, parse s = Ok a -> wfb true a = true.
+Proof. exact parse_wf. Qed.
+Print Assumptions c06_parse_image_wf.
+
+(* The specification oracle accepts every run of the (repaired) model. *)
+Theorem c06_model_meets_spec : forall (H : bytes -> bytes) s maps, ok_case (model_case H true s maps) = true.
+Proof. exact model_meets_spec_fixed. Qed.
+Print Assumptions c06_model_meets_spec.
+
+(* Hypotheses are satisfiable by a non-trivial input: ex_input uses every operator, nested, with noise. *)
+Example c06_example : parse ex_input = Ok ex_ast /\ nn_free ex_ast = true /\ (10 <= ast_size ex_ast)%nat
+                      /\ to_string false ex_ast <> ex_input.
+Proof. exact ex_parses. Qed.
